@@ -305,6 +305,27 @@ def small_l2_cases(tier):
                     yield {"n": n, "msl": msl, "family": "l2int", "k": k, "x": list(x), "int_output": False}
 
 
+# ------------------------------------------------------------------ default settings on realistic series
+
+
+def default_cells(tier):
+    """The detector with its DEFAULT hyper-parameters (optionally one of them changed) on series of 100-400 samples of the kind
+    users have: noise with level shifts plus a seasonal cycle / drift / rounding / bursts / a plateau / events at the ends /
+    a variance change (strategies.data.realistic_series; deterministic function of the stored seed)."""
+    ns = (100, 250) if tier == "quick" else (100, 150, 250, 400)
+    for seed in range(8 if tier == "quick" else 24):
+        for n in ns:
+            for variant in ({}, {"msl": 5}, {"penalty_scale": 1.0}, {"cost": "GaussianVarCost"})[: 2 if tier == "quick" else 4]:
+                yield {"seed": 20000 + seed, "n": n + seed, "p": 1 + seed % 2, "cost": "L2Cost", "msl": 2, "penalty_scale": 2.0, **variant}
+
+
+def check_default(case):
+    X, kind = D.realistic_series(case["seed"], case["n"], case["p"])
+    info = check_builtin({"cost": case["cost"], "msl": case["msl"], "X": X, "penalty_scale": case["penalty_scale"]})
+    info["classes"] = list(info["classes"]) + [f"data={kind}"]
+    return info
+
+
 # ------------------------------------------------------------------ long series
 
 
@@ -389,6 +410,13 @@ FACETS = [
               "earlier predict on the caller's array / frame, then refilled in place); "
               "non-trivial = >=1 changepoint AND the evaluated cost table satisfies the split inequality"),
         n_quick=480, n_thorough=8000, shards_quick=8, shards_thorough=16,
+    ),
+    Facet(
+        name="default_settings", kind="enumerate", enumerate=default_cells, check=check_default, exhaustive=True, time_limit=120,
+        rule=("PELT with its default hyper-parameters (L2 cost, min_segment_length 2, penalty scale 2; variants: msl 5, scale 1, GaussianVar cost) on "
+              "realistic series of 100-400 samples (shifts + seasonal / trend / rounded / bursts / plateau / end events / variance change; seeded); "
+              "same un-pruned reference; 32 cells (thorough: 384), non-trivial = >= 1 changepoint"),
+        shards_quick=16, shards_thorough=16, max_samples=1,
     ),
     Facet(
         name="long_series", kind="enumerate", enumerate=long_cells, check=check_long, exhaustive=True, time_limit=600,
